@@ -21,8 +21,22 @@ func Judge(out *lib.Out, sc *Scenario, kind string, oracles func(*Run) []string,
 	run, err := sc.Exec()
 	defer run.Close()
 	if err != nil || run == nil {
+		msgs := []string{"scenario aborted: " + fmt.Sprint(err)}
+		if run != nil && run.W != nil {
+			// what was observed before the scenario had to be given up
+			for _, a := range run.W.StepAnomalies {
+				if len(msgs) < 5 && !strings.Contains(msgs[0], a) {
+					msgs = append(msgs, a)
+				}
+			}
+			for _, a := range run.W.Rec.Anomalies {
+				if len(msgs) < 7 {
+					msgs = append(msgs, "unexpected database traffic: "+a)
+				}
+			}
+		}
 		c := lib.Case{Coq: "(TCase [] (Db [] []) [] [])", Desc: sc, Kind: kind, OracleOK: false,
-			OracleMsg: "scenario aborted: " + fmt.Sprint(err), Size: len(sc.Acts)}
+			OracleMsg: strings.Join(msgs, " || "), Size: len(sc.Acts)}
 		out.Add(c)
 		return c
 	}
@@ -53,6 +67,7 @@ func Judge(out *lib.Out, sc *Scenario, kind string, oracles func(*Run) []string,
 		}
 	}
 	msgs = append(msgs, run.W.ConfigAnomalies...)
+	msgs = append(msgs, run.W.StepAnomalies...)
 	msgs = append(msgs, oracles(run)...)
 	for _, a := range run.W.Rec.Anomalies {
 		if len(msgs) < 10 {
